@@ -71,8 +71,8 @@ CHECKS['C04'] = dict(
     technique='contract-based deductive verification: PyVC + z3 against schema-table postconditions; bounded inventory cross-check',
 )
 
-TB_CXX = ('CxxVC (vc/cxxvc.py) encodes the C++14 subset correctly; unsigned as integers with no-wrap obligations, float as reals; STL/chart contracts; '
-          'setup contracts for best scores and prefix sums; grammar callback vector = k-th result with rule_id k; see evidence.assumptions')
+TB_CXX = ('CxxVC (vc/cxxvc.py) encodes the C++14 subset correctly; unsigned as integers with no-wrap obligations, float as reals (finite scores); STL contracts; '
+          'constructor initialiser lists read, not executed; the score setup, argmax, matrix, compute_outside_probabilities and the chart methods are proved (loop invariants in contracts/parsing_h_helpers.py), not assumed; grammar callback vector = k-th result with rule_id k; see evidence.assumptions')
 CHECKS['C14'] = dict(
     category='proof',
     text=('Exception freedom of all 24 combinators, apply_binary_rules and apply_unary_rules of both grammars for well-formed inputs (noraise obligations of the '
@@ -131,9 +131,10 @@ CHECKS['C10'] = dict(
     category='exploration',
     text=('Decided BOUNDED: run-time contract of the real parse_sentence (compiled from the working tree) against exhaustive enumeration of all derivations on seeded small '
           'cases: min(k, #derivations) parses, pairwise different, non-increasing, scores equal to the k largest. Deductive obligations (only final items reach the goal cell, '
-          'only the goal site creates them) are included but the k-best clause has no contract-level proof here, so the level is exploration, not proof.'),
+          'only the goal site creates them; chart::update / chart::operator() / cell::emplace / contains / size proved against their contracts: in n-best mode every item is stored, as a field-by-field copy, in the cell of its span) '
+          'are included but the k-best clause itself has no contract-level proof here, so the level is exploration, not proof.'),
     design_ref='DESIGN.md section 4, C10', note='bounded oracle; float tolerance 2e-4 relative',
-    technique='bounded run-time contract against an exhaustive oracle (stand-in; k-best meta-theorem not proved), plus CxxVC side obligations',
+    technique='bounded run-time contract against an exhaustive oracle (stand-in; k-best meta-theorem not proved), plus CxxVC obligations on the goal cell and the chart methods',
 )
 
 BOUNDED_NOTE = ('bounded stand-in on the real code (labelled bounded, never counted as proved): seeded enumeration, independent spec decoders / oracle; '
@@ -141,11 +142,12 @@ BOUNDED_NOTE = ('bounded stand-in on the real code (labelled bounded, never coun
 CHECKS['C11'] = dict(
     category='exploration',
     text=('Deductive parts: _chunks is proved (PyVC, one arbitrary iteration of range(0, n, splits) with exact ceiling division) to yield non-empty, contiguous, in-order slices covering the '
-          'list; the two rule-cache lambdas of parsing.h are proved (CxxVC) to store the vector filled by scaffold unchanged under (x, y), to return the stored vector and to call nothing on a hit. '
+          'list; the two rule-cache lambdas of parsing.h are proved (CxxVC) to store the vector filled by scaffold unchanged under (x, y), to return the stored vector and to call nothing on a hit; '
+          'frame of parse_sentence w.r.t. the run-wide config object: every iteration of the search loop and of the leaf loop leaves all fields of *config unchanged, and every use of the parameter is a member read. '
           'History/schedule independence, alignment for every chunking and process count, placeholders and shape rejection before parsing are decided BOUNDED by a differential run on the real code '
           '(parsing.h compiled, DePyx text of parsing.pyx, depccg/parsing.py with an in-process stand-in for Pool). Level is exploration because the headline clauses are bounded.'),
     design_ref='DESIGN.md section 4, C11', note=BOUNDED_NOTE + '; OS-level process scheduling not modelled',
-    technique='contract-based deductive verification of _chunks (PyVC) and of the memo lambdas (CxxVC); bounded differential stand-in for history independence',
+    technique='contract-based deductive verification of _chunks (PyVC), of the memo lambdas and of the config frame (CxxVC); bounded differential stand-in for history independence',
 )
 CHECKS['C17'] = dict(
     category='exploration',
